@@ -235,6 +235,12 @@ def chunk_independence(ctx, rule):
     strip = [bi for bi, c in calls if c == "StripHeaderReader::strip_head_read(arg1,arg2)"]
     ok = pv == "PastHeader" and len(direct) == 1 and len(strip) == 1 and has_fact(rb, direct[0], {}, ("true", "HeaderState::eq(arg1.header_state,*)", None)) \
         and has_fact(rb, strip[0], {}, ("false", "HeaderState::eq(arg1.header_state,*)", None))
+    if not ok and len(direct) == 1 and len(strip) == 1 and "PastHeader" in _adt_variants(ctx, "decoder::HeaderState"):
+        # the same test written on the discriminant (`matches!`, `match`, `if let`)
+        k = _adt_variants(ctx, "decoder::HeaderState").index("PastHeader")
+        others = tuple(i for i in range(len(_adt_variants(ctx, "decoder::HeaderState"))) if i != k)
+        ok = has_fact(rb, direct[0], {}, ("variant_in", "arg1.header_state", (k,)), ("variant_not_in", "arg1.header_state", others)) \
+            and has_fact(rb, strip[0], {}, ("variant_not_in", "arg1.header_state", (k,)), ("variant_in", "arg1.header_state", others))
     ctx.check(ok, rule, rb.path, "pass-through", "reads go straight to the wrapped reader exactly when the state is PastHeader")
     nb = ctx.body("decoder::StripHeaderReader::<R>::new")
     lit = [q.shape(nb.expr_of_rvalue(s["rv"])) for bi, si, s, it in nb.locations() if not it and s["k"] == "assign" and s["rv"]["k"] == "agg" and s["rv"].get("adt", "").endswith("StripHeaderReader")]
@@ -267,7 +273,7 @@ def convergence(ctx, rule):
     ctx.check(target_ty(i1, "de::from_reader") == ["jsontypes::MinimalRawSourceMap"] and target_ty(i2, "de::from_slice") == ["jsontypes::MinimalRawSourceMap"], rule, "detector", "same-minimal-type", "both detection paths parse into MinimalRawSourceMap")
     for body, strip in ((i1, "StripHeaderReader::new(arg1)"), (i2, "decoder::strip_junk_header(arg1)")):
         calls = [q.shape(body.expr_of_call(t)) for bi, t in body.calls()]
-        ok = strip in calls and any(c.startswith("detector::is_sourcemap_common(") for c in calls)
+        ok = strip in calls and any(c.startswith("detector::is_sourcemap_common(") or (c.startswith("Result::map(de::from_") and c.endswith(",fn:detector::is_sourcemap_common)")) for c in calls)
         ctx.check(ok, rule, body.path, "strip+common", "the detection path strips the header and applies the shared predicate")
     for p, impl in (("detector::is_sourcemap", "detector::is_sourcemap_impl(arg1)"), ("detector::is_sourcemap_slice", "detector::is_sourcemap_slice_impl(arg1)")):
         b = ctx.body(p)
